@@ -41,6 +41,8 @@ def cases_for(ctx):
     # a fault exactly on a worker's last allowed replay (recycle boundary), followed by more replays than the rate
     cases.append({'behaviours': [E, E, 'exit', E, E, E, E, E], 'recycle': 3, 'consume': 'full'})
     cases.append({'behaviours': [E, 'hang', E, E, E, E], 'recycle': 2, 'consume': 'full'})
+    # a worker killed while it sits idle between two replays: the run must continue with a working fresh worker
+    cases.append({'behaviours': [E, 'die_idle', E, D, E, E], 'recycle': 5, 'consume': 'full'})
     # a hung worker whose replayed code installed a SIGTERM handler must still be gone afterwards
     cases.append({'behaviours': [E, 'hang_sigterm_ignored', E], 'recycle': 3, 'consume': 'full'})
     if ctx.quick:
@@ -85,6 +87,11 @@ def judge(ctx, case, res, w):
     for i, r in enumerate(res['results']):
         if beh[i] in ('hang', 'exit', 'hang_sigterm_ignored') and r['status'] != 'EqualizerFailure':
             problems.append(('a %s worker was not reported as a failure (%s)' % (beh[i], r['status']), {}))
+    # "the run continues with a fresh worker": healthy replays after a fault get their own verdict
+    for i, r in enumerate(res['results']):
+        if beh[i] in ('equal', 'different') and not (i > 0 and beh[i - 1] == H.IDLE_DEATH):
+            if r['status'] != H.EXPECTED[beh[i]]:
+                problems.append(('healthy replay %d (%s) was reported as %s: the run did not continue with a working worker' % (i, beh[i], r['status']), {}))
     # recycle rate: no worker serves more replays than the configured rate
     per_pid = {}
     for p in res['task_pid']:
